@@ -34,6 +34,7 @@ def run(ctx):
     additivity(ctx)
     point_t(ctx)
     closed_forms(ctx)
+    quad_fallback(ctx)
     subdivision(ctx)
     n = cachecoh.check(ctx, "R15.5")
     ctx.need(n >= 8, "R15.5", "too few mutating methods recognised (%d)" % n)
@@ -159,6 +160,48 @@ def closed_forms(ctx):
     got = alg.env.get("s")
     ctx.ob("R15.3", "QuadraticBezier.length[closed form]", got is not None and not isinstance(got, list) and got == want_s, str(got)[:120], q.lineno,
            "assembled expression differs from the closed-form arc length of a quadratic Bezier")
+
+
+def quad_fallback(ctx):
+    """Collinear (anti-parallel) quadratic: speed | |b| - 2|a| t | with a = p0 - 2 p1 + p2, b = 2 (p1 - p0).  The curve turns
+    back inside (0, 1) iff k = |b|/|a| < 2; length |b| - |a| when k >= 2, else |a| (k^2/2 - k + 1); a = 0 gives |b|."""
+    q = ctx.fn("QuadraticBezier.length", "R15.3")
+    tr = [s for s in q.body if isinstance(s, ast.Try)]
+    ctx.need(len(tr) == 1 and tr[0].handlers, "R15.3", "QuadraticBezier.length: fallback handler not found")
+    hb = tr[0].handlers[0].body
+    A_, B_ = atom(opaque_name("abs", [atom("a")])), atom(opaque_name("abs", [atom("b")]))
+    top = [s for s in hb if isinstance(s, ast.If)]
+    ctx.need(len(top) == 1, "R15.3", "QuadraticBezier.length fallback: structure not recognised")
+    t0 = top[0]
+    ok = isinstance(t0.test, ast.Compare) and Alg().ev(t0.test.left) == A_ and isinstance(t0.test.ops[0], (ast.Lt, ast.LtE)) and isinstance(t0.test.comparators[0], ast.Constant) and 0 <= t0.test.comparators[0].value <= 1e-6
+    got0 = Alg().ev(t0.body[0].value) if t0.body and isinstance(t0.body[0], ast.Assign) else None
+    ctx.ob("R15.3", "QuadraticBezier.length[fallback: a = 0]", ok and got0 is not None and got0 == B_, ast.unparse(t0.test), t0.lineno, "with a = 0 the curve is a straight run of length |b|")
+    alg = Alg()
+    inner = None
+    for s in t0.orelse:
+        if isinstance(s, ast.Assign):
+            alg.assign(s)
+        if isinstance(s, ast.If):
+            inner = s
+    ctx.need(inner is not None, "R15.3", "QuadraticBezier.length fallback: threshold test not found")
+    t = inner.test
+    ok_thr = False
+    if isinstance(t, ast.Compare) and len(t.ops) == 1 and isinstance(t.ops[0], (ast.GtE, ast.Gt)):
+        diff = alg.ev(t.left) - alg.ev(t.comparators[0])
+        ok_thr = diff == (B_ - const(2) * A_) / A_ or diff == B_ - const(2) * A_
+    ctx.ob("R15.3", "QuadraticBezier.length[fallback: turning threshold]", ok_thr, ast.unparse(t), inner.lineno,
+           "the curve runs monotonically exactly when |b| >= 2|a| (the speed |b| - 2|a|t does not change sign on [0, 1])")
+    a1 = Alg(env=dict(alg.env))
+    a2 = Alg(env=dict(alg.env))
+    g1 = a1.ev(inner.body[0].value) if inner.body and isinstance(inner.body[0], ast.Assign) else None
+    for s in inner.orelse:
+        if isinstance(s, ast.Assign):
+            a2.assign(s)
+    g2 = a2.env.get("s")
+    kk = B_ / A_
+    ctx.ob("R15.3", "QuadraticBezier.length[fallback: monotone run]", g1 is not None and g1 == B_ - A_, str(g1), inner.lineno, "length |b| - |a| when the curve does not turn back")
+    ctx.ob("R15.3", "QuadraticBezier.length[fallback: fold-back]", g2 is not None and g2 == A_ * (kk * kk / const(2) - kk + const(1)), str(g2), inner.lineno,
+           "length |a| (k^2/2 - k + 1) when the curve turns back at t = k/2")
 
 
 def subdivision(ctx):
